@@ -192,7 +192,7 @@ def run_property(pid, tier="quick", seed=0, only=None, jobs=None, no_replay=Fals
         C.assumptions.extend(a for a in extra.assumptions if a not in C.assumptions)
         # a restricted copy of another property's set (only_verify) brings the contracts named there, not that property's
         # native histories (they are run - and reported - under their own property)
-        if extra.only_verify is None:
+        if extra.only_verify is None or getattr(extra, "keep_finite", False):
             C.finite_checks.extend(extra.finite_checks)
     opts = {"fn_timeout": 240 if tier == "quick" else 900, "strings": getattr(C, "strings", False), "tier": tier,
             "seed": seed}
